@@ -31,7 +31,9 @@ RULE = ("part 'handoff': ProgGen programs whose remote nodes hand work (multi-ho
         "files' lines are merged in several orders (concatenated, remote-first, reversed, random shuffles) and parsed: exactly the "
         "ground-truth forest, every task complete, remote sub-trees at the reserved positions with the originator's task_uuid; ids "
         "returned within a run are pairwise distinct; placement (unique, contiguous, start at 1, end at n) holds on the merged "
-        "messages. part 'subprocess': the id crosses to a fresh interpreter via argv. part 'race': one preserve_context callable "
+        "messages. part 'chain': 2-4 hops deep chains of preserved callables / continued tasks (each hop synchronous or on a joined thread) run as the "
+        "only registered thread of a schedule: no hop blocks on something an earlier hop still holds (deadlock = violation), merged tape == "
+        "ground truth. part 'subprocess': the id crosses to a fresh interpreter via argv. part 'race': one preserve_context callable "
         "invoked by 2-4 threads under the line-granular scheduler (LINE events on eliot/_action.py), ALL one-preemption schedules "
         "per priority order plus sampled deeper ones: f runs exactly once, that caller gets f's result / f's exception object, "
         "every other caller gets TooManyCalls, exactly one remote action is logged; with no current action preserve_context(f) is f; the callables handed over are functions, functools.partial objects, objects with "
@@ -39,13 +41,15 @@ RULE = ("part 'handoff': ProgGen programs whose remote nodes hand work (multi-ho
         "non-trivial = hand-off program with >=2 hops or a child process; race schedule whose preemption fired in _action.py")
 ASSUMPTIONS = ["each serialized id is continued exactly once", "merge orders are sampled (the parser's order-independence is C09's subject)"]
 EXHAUSTIVE_NOTE = "race: all one-preemption schedules for every priority order of the invoking threads"
-CASE_TIMEOUT = 900
+CASE_TIMEOUT = 240
 
 
 def plan(tier, seed):
     n = 480 if tier == "quick" else 12000
     B = 12
     specs = [{"part": "handoff", "seed": seed, "lo": i, "hi": min(n, i + B)} for i in range(0, n, B)]
+    m = 400 if tier == "quick" else 8000
+    specs += [{"part": "chain", "seed": seed, "lo": i, "hi": min(m, i + 25)} for i in range(0, m, 25)]
     specs += [{"part": "subprocess", "seed": seed, "i": i} for i in range(6 if tier == "quick" else 60)]
     specs += [{"part": "race", "seed": seed, "i": i, "tier": tier} for i in range(16 if tier == "quick" else 200)]
     return specs
@@ -401,9 +405,66 @@ def part_race(spec, res):
         res["sample"] = {"part": "race", "callers": ncallers, "outcome": outcome, "baseline_events": base["events"]}
 
 
+def one_chain(seed, i, res):
+    """Multi-hop hand-offs: a preserved callable / continued task whose body hands work to a further one (synchronously or on a
+    thread it joins), 2-4 hops deep, run as the only registered thread of a schedule so that blocking on a lock somebody in the
+    chain still holds is a verdict ("no thread can make progress") instead of a hang."""
+    from vf.tape import Recorder, Tape
+    rng = random.Random("%s:C06:chain:%d" % (seed, i))
+    g = gen.ProgGen(rng, max_depth=2, max_nodes=10**6, value_depth=0, allow_tb=False, remote_vias=("same", "thread"), fail_p=0.15)
+    hops = rng.randint(2, 4)
+    node = None
+    for k in range(hops):
+        r = g.remote(99)
+        r["api"] = "preserve_context" if rng.random() < 0.7 else "continue_task"
+        if r["api"] == "preserve_context":
+            r["type"], r["start"] = "eliot:remote_task", {}
+        r.pop("defer", None)
+        r["children"] = [g.msg()] + ([node] if node is not None else []) + ([g.msg()] if rng.random() < 0.5 else [])
+        node = r
+    root = g.act(99, force_style="with")
+    root["outcome"] = "ok"
+    root.pop("exc", None)
+    root["children"] = [g.msg(), node, g.msg()]
+    prog = [root]
+    tape = Tape()
+    rec = Recorder(tape, "rec")
+    add_destinations(rec)
+    it = Interp(tape=tape)
+    box = {}
+
+    def body():
+        box["forest"] = it.run(prog)
+    try:
+        st, errs = sched.run_schedule({"order": ["main"], "changes": []}, {"main": body}, timeout=120.0)
+    finally:
+        remove_destination(rec)
+    problems = ["running the chain raised %r" % (e,) for e in errs.values()]
+    if st["deadlock"]:
+        problems.append("a %d-hop chain of hand-offs deadlocked: %s" % (hops, st["deadlock"]))
+    elif st["aborted"]:
+        res["inconclusive"] = "chain schedule abandoned: %s" % st["aborted"]
+    else:
+        problems += [v["msg"] for v in it.violations]
+        try:
+            tasks = list(Parser.parse_stream(tape.msgs("rec")))
+            problems += oracles.compare_forest(box.get("forest", []), tasks)[:3]
+        except BaseException as e:
+            problems.append("parser raised %r" % (e,))
+    res["evals"] += 1
+    c = res["counters"]
+    c["multi_hop_chains"] = c.get("multi_hop_chains", 0) + 1
+    res["nontrivial"].append(h(["chain", gen.prog_shape(prog)]))
+    if problems:
+        res["violations"].append({"msg": problems[0], "mech": None, "detail": {"part": "chain", "case": i, "hops": hops, "problems": problems[:5], "program": prog}})
+
+
 def run_case(spec):
     res = {"evals": 0, "nontrivial": [], "counters": {}, "violations": [], "sample": None, "sets": {"interleavings": [], "preemption_lines": []}}
-    if spec["part"] == "handoff":
+    if spec["part"] == "chain":
+        for i in range(spec["lo"], spec["hi"]):
+            one_chain(spec["seed"], i, res)
+    elif spec["part"] == "handoff":
         for i in range(spec["lo"], spec["hi"]):
             one_handoff(spec["seed"], i, res)
     elif spec["part"] == "subprocess":
